@@ -59,6 +59,23 @@ class SchedManager:
         return vsched.VLock()
 
 
+class AppProxy:
+    """stands for the worker's Diameter object: everything is delegated to the real (never started) object except the
+    transmission itself, which hands the message to the harness (the peer answers)"""
+    def __init__(self, real, on_send):
+        self.__dict__["_real"], self.__dict__["_on_send"] = real, on_send
+
+    def __getattr__(self, name):
+        return getattr(self.__dict__["_real"], name)
+
+    def send_message(self, msg, *a, **k):
+        self.__dict__["_on_send"](msg)
+
+    def send_messages(self, msgs):
+        for m in msgs:
+            self.__dict__["_on_send"](m)
+
+
 class TracedDict(dict):
     """Worker.pending_answers with its operations observable and preemptible"""
     log = None
@@ -195,24 +212,20 @@ def run_once(seed, K, dup, router_cls=c13.Router):
             events.append({"a": "arrive", "c": k, "k": copy, "found": False, "v": 0})
             app.handler_pending_answers(ans)
 
-        def consumer():
-            n = 0
-            while n < K:
-                msg = worker.send_queue.get()
-                k = hb.get(msg.header.hop_by_hop, 0)
-                worker.send_event.clear()
-                worker.send_lock.release()
-                n += 1
-                for copy in ((1, 2) if dup else (1,)):
-                    t = s.spawn(f"dispatcher{k}.{copy}", dispatcher, k, copy)
-                    cur[id(t)] = ("disp", k, copy)
+        def on_send(msg):
+            # the worker's real send_handler has taken the message from its queue and "transmits" it: the peer answers
+            k = hb.get(msg.header.hop_by_hop, 0)
+            for copy in ((1, 2) if dup else (1,)):
+                t = s.spawn(f"dispatcher{k}.{copy}", dispatcher, k, copy)
+                cur[id(t)] = ("disp", k, copy)
+        worker.app = AppProxy(worker.app, on_send)
         for k in range(1, K + 1):
             t = s.spawn(f"caller{k}", caller, k)
             cur[id(t)] = ("caller", k, 1)
-        s.spawn("worker_send_handler", consumer)
+        handler = s.spawn("worker_send_handler", worker.send_handler)          # the library's own loop (never returns)
         chooser = vsched.PCT(seed, depth=1 + seed % 3, horizon=250) if seed % 3 else None
         try:
-            out = s.run(until=lambda: all(t.done for t in s.threads), chooser=chooser)
+            out = s.run(until=lambda: all(t.done for t in s.threads if t is not handler), chooser=chooser)
         except vsched.Deadlock as e:
             out = "deadlock: " + str(e)
         except (vsched.StepLimit, vsched.StepHang) as e:
@@ -385,20 +398,18 @@ def run_resend(seed, router_cls=c13.Router):
         from bromelia.avps import ResultCodeAVP
         app.handler_pending_answers(DiameterAnswer(header=r.header, avps=[ResultCodeAVP(2001)]))
 
-    def consumer():
-        n = 0
-        while n < 3:
-            msg = worker.send_queue.get()
-            worker.send_event.clear()
-            worker.send_lock.release()
-            n += 1
-            s.spawn(f"dispatcher{n}", dispatcher, msg)
+    nsent = [0]
+
+    def on_send(msg):
+        nsent[0] += 1
+        s.spawn(f"dispatcher{nsent[0]}", dispatcher, msg)
+    worker.app = AppProxy(worker.app, on_send)
     s.spawn("caller1", caller)
     s.spawn("caller2", caller2)
-    s.spawn("worker_send_handler", consumer)
+    handler = s.spawn("worker_send_handler", worker.send_handler)
     chooser = vsched.PCT(seed, depth=1 + seed % 3, horizon=250) if seed % 3 else None
     try:
-        out = s.run(until=lambda: all(t.done for t in s.threads), chooser=chooser)
+        out = s.run(until=lambda: all(t.done for t in s.threads if t is not handler), chooser=chooser)
     except vsched.Deadlock as e:
         out = "deadlock: " + str(e)
     except (vsched.StepLimit, vsched.StepHang) as e:
